@@ -206,6 +206,23 @@ fn c05_case(p: &Pos, depth: u8, mode: &str, rs: &mut RefSearch, st: &mut Stats, 
             }
         }
     }
+    // coverage probe: does the value rest on the stalemate rule applied to an interior node?
+    if rs.stalemates_inside > 0 && depth >= 2 {
+        st.bump("trees_with_a_stalemate_at_an_interior_node");
+        rs.clear_interior();
+        rs.stalemate_as_loss = true;
+        let alt = rs.value(p, depth);
+        rs.stalemate_as_loss = false;
+        rs.clear_interior();
+        if let Ok(alt) = alt {
+            if alt != want {
+                st.bump("value_rests_on_the_stalemate_rule_at_an_interior_node");
+                if want == Val::Num(0) {
+                    st.bump("value_is_a_draw_saved_by_stalemate_inside_the_tree");
+                }
+            }
+        }
+    }
     let got = class(score);
     if got != want {
         st.violation(
@@ -304,6 +321,9 @@ fn c05_qwindow(p: &Pos, rng: &mut Rng, s: &mut Searcher, st: &mut Stats) {
 }
 
 fn c05_position(rng: &mut Rng, i: u64) -> Pos {
+    if i % 11 == 10 {
+        return gen::g_stalemate_swindle(rng);
+    }
     match i % 14 {
         0 | 1 | 2 | 3 => gen::g_game_pos(rng),
         4 => gen::corpus_pos(rng.below(gen::CORPUS.len() as u64) as usize),
@@ -336,18 +356,22 @@ const STUDIES: &[&str] = &[
     "k7/8/8/3pP3/8/8/8/K6b w - d6 0 1",
     "r3k3/8/8/8/8/8/8/3K1R2 b q - 0 1",
     "5rk1/8/8/8/8/8/8/R3K3 w Q - 0 1",
+    // stalemate swindles: the side behind gives its last mobile piece away and is stalemated
+    "7k/7p/8/8/8/8/2q5/K5R1 w - - 0 1",
+    "k7/P7/K7/8/8/8/8/6r1 b - - 0 1",
+    "7k/5K2/6Q1/8/8/8/8/6r1 b - - 0 1",
 ];
 
 pub fn run_c05(ctx: &Ctx) -> i32 {
     let spec = Spec {
         level: "exploration",
-        rule: "a case is (position, depth, mode): mode 'id' = find_best_move on a fresh engine at depth 1..3 (public API, every run judged), mode 'fixed' = one fixed-depth search at depth 4..5 on a fresh engine (runs in which a result cached by a deeper search was returned are excluded and counted). The score class must equal the reference minimax value (leaves = the engine's own full-window quiescence), the returned move must attain it, every entry left in the transposition table must be a true claim about the reference value of the position it belongs to, and quiescence must be window-consistent. Positions: game positions of all phases, corpus, few-men positions, synthetic and promotion studies; positions whose reference tree or quiescence exceeds the node budget are skipped and counted. Distinct by (position, depth, mode); non-trivial when the position has more than one legal move",
+        rule: "a case is (position, depth, mode): mode 'id' = find_best_move on a fresh engine at depth 1..3 (public API, every run judged), mode 'fixed' = one fixed-depth search at depth 4..5 on a fresh engine (runs in which a result cached by a deeper search was returned are excluded and counted). The score class must equal the reference minimax value (leaves = the engine's own full-window quiescence), the returned move must attain it, every entry left in the transposition table must be a true claim about the reference value of the position it belongs to, and quiescence must be window-consistent. Positions: game positions of all phases, corpus, few-men positions, synthetic and promotion studies, stalemate swindles (a cornered king plus one piece to give away); positions whose reference tree or quiescence exceeds the node budget are skipped and counted. Distinct by (position, depth, mode); non-trivial when the position has more than one legal move",
         assumptions: vec![
             "the reference rules implementation is correct (perft self-test at every run)".into(),
             "leaves are scored by the engine's own quiescence search on a full window (as the property defines the reference); that search is not itself compared with anything except for window consistency".into(),
             "depths above 5 and non-fresh engines are outside this check".into(),
         ],
-        required: if ctx.replay.is_some() { vec![] } else { vec!["judged_depth_1_id", "judged_depth_2_id", "judged_depth_3_id", "judged_depth_4_fixed", "cached_claims_audited", "claims_exact", "claims_lower", "claims_upper", "quiescence_windows_checked", "runs_with_same_depth_cached_result_returned", "value_attained_only_by_underpromotion", "value_attained_by_a_single_move", "depth_4_fixed_on_positions_with_many_men"] },
+        required: if ctx.replay.is_some() { vec![] } else { vec!["judged_depth_1_id", "judged_depth_2_id", "judged_depth_3_id", "judged_depth_4_fixed", "cached_claims_audited", "claims_exact", "claims_lower", "claims_upper", "quiescence_windows_checked", "runs_with_same_depth_cached_result_returned", "value_attained_only_by_underpromotion", "value_attained_by_a_single_move", "depth_4_fixed_on_positions_with_many_men", "value_rests_on_the_stalemate_rule_at_an_interior_node", "value_is_a_draw_saved_by_stalemate_inside_the_tree"] },
         exhaustive: false,
         extra: vec![],
     };
@@ -496,6 +520,35 @@ fn mates_in_one(p: &Pos, legal: &[Mv]) -> Vec<Mv> {
         .collect()
 }
 
+
+/// Material class of a position, for the coverage counters of C08.
+fn c08_material_tags(p: &Pos) -> Vec<&'static str> {
+    use crate::oracle::{kind, B, N, P, Q, R};
+    let mut heavy = 0;
+    let mut minors = 0;
+    for s in 0..64 {
+        match kind(p.sq[s]) {
+            k if k == P || k == R || k == Q => heavy += 1,
+            k if k == N || k == B => minors += 1,
+            _ => {}
+        }
+    }
+    let mut t = vec![];
+    if heavy == 0 && minors > 0 {
+        t.push("minor_pieces_only");
+    }
+    if heavy + minors <= 3 {
+        t.push("at_most_5_men");
+    }
+    if heavy == 0 && minors == 2 {
+        let w = (0..64).filter(|&s| (kind(p.sq[s]) == N || kind(p.sq[s]) == B) && crate::oracle::color(p.sq[s]) == 0).count();
+        if w == 1 {
+            t.push("one_minor_piece_each");
+        }
+    }
+    t
+}
+
 fn c08_search(p: &Pos, depth: u8) -> Result<Option<String>, String> {
     let b = eng::board_from_pos(p);
     engine_call(|| {
@@ -531,6 +584,22 @@ fn c08_position(p_in: &Pos, rng: &mut Rng, st: &mut Stats, only_depth: Option<u8
         let mates: Vec<String> = m1.iter().map(|m| m.uci()).collect();
         st.case(hash64(&(p.key(), d, 0u8)), m1.len() < legal.len());
         st.bump(&format!("mate_in_one_trials_depth_{}", d));
+        for t in c08_material_tags(p) {
+            st.bump(&format!("mate_in_one_trials_{}", t));
+        }
+        for m in m1.iter() {
+            use crate::oracle::{MvKind, Q};
+            if m.promo != 0 && m.promo != Q {
+                st.bump("mating_move_is_an_underpromotion");
+            } else if m.promo == Q {
+                st.bump("mating_move_is_a_queen_promotion");
+            }
+            match m.kind {
+                MvKind::EnPassant => st.bump("mating_move_is_en_passant"),
+                MvKind::CastleK | MvKind::CastleQ => st.bump("mating_move_is_castling"),
+                _ => {}
+            }
+        }
         st.sample_tagged("mate_in_one", || J::obj(vec![("fen", J::s(p.to_fen())), ("depth", J::i(d as i64)), ("kind", J::s("mate_in_one")), ("mating_moves", J::arr_s(mates.clone()))]));
         match c08_search(p, d) {
             Err(msg) => st.violation(format!("C08:panic:{}:{}", p.to_fen(), d), format!("search of {} to depth {} panicked: {}", p.to_fen(), d, msg), J::obj(vec![("fen", J::s(p.to_fen())), ("depth", J::i(d as i64))])),
@@ -566,6 +635,9 @@ fn c08_position(p_in: &Pos, rng: &mut Rng, st: &mut Stats, only_depth: Option<u8
     }
     st.case(hash64(&(p.key(), d, 1u8)), true);
     st.bump(&format!("avoidable_mate_trials_depth_{}", d));
+    for t in c08_material_tags(p) {
+        st.bump(&format!("avoidable_mate_trials_{}", t));
+    }
     st.sample_tagged("avoidable_mate", || J::obj(vec![("fen", J::s(p.to_fen())), ("depth", J::i(d as i64)), ("kind", J::s("avoidable_mate")), ("moves_allowing_mate_in_one", J::arr_s(blunders.clone())), ("legal_moves", J::i(legal.len() as i64))]));
     match c08_search(p, d) {
         Err(msg) => st.violation(format!("C08:panic:{}:{}", p.to_fen(), d), format!("search of {} to depth {} panicked: {}", p.to_fen(), d, msg), J::obj(vec![("fen", J::s(p.to_fen())), ("depth", J::i(d as i64))])),
@@ -627,12 +699,84 @@ fn g_mating(rng: &mut Rng) -> Pos {
     }
 }
 
+
+/// Sparse material around a cornered king: mates in one (and moves allowing one) with three to six men,
+/// including minor-piece-only material, lone pawns about to promote and under-promotion mates — the
+/// positions in which draw-ish shortcuts (insufficient material, fifty moves) would sit in front of the
+/// mate test. Rejection sampling: only positions giving rise to a trial are used by the caller.
+fn g_mating_sparse(rng: &mut Rng) -> Pos {
+    use crate::oracle::{file_of, kind, on_board, pc, rank_of, sq, B, K, N, P, Q, R};
+    const STRONG: &[&[u8]] = &[&[N], &[B], &[N, N], &[B, B], &[B, N], &[R], &[Q], &[P], &[P, P], &[N, P], &[B, P], &[R, N], &[R, B]];
+    const WEAK: &[&[u8]] = &[&[], &[N], &[B], &[P], &[R], &[P, P], &[N, P], &[B, P], &[B, B], &[N, N], &[Q]];
+    loop {
+        let mut p = Pos::empty();
+        p.stm = rng.below(2) as u8;
+        let weak = rng.below(2) as u8;
+        let strong = weak ^ 1;
+        // weak king in a corner (mostly) or on an edge
+        let (kf, kr): (i8, i8) = if rng.chance(3, 5) {
+            (*rng.pick(&[0i8, 7]), *rng.pick(&[0i8, 7]))
+        } else {
+            match rng.below(4) {
+                0 => (rng.below(8) as i8, 0),
+                1 => (rng.below(8) as i8, 7),
+                2 => (0, rng.below(8) as i8),
+                _ => (7, rng.below(8) as i8),
+            }
+        };
+        p.sq[sq(kf, kr) as usize] = pc(weak, K);
+        // a square at Chebyshev distance lo..=hi from the weak king
+        let near = |p: &Pos, rng: &mut Rng, lo: i8, hi: i8, piece: u8| -> Option<usize> {
+            for _ in 0..60 {
+                let df = rng.range(-(hi as i64), hi as i64) as i8;
+                let dr = rng.range(-(hi as i64), hi as i64) as i8;
+                if df.abs().max(dr.abs()) < lo || !on_board(kf + df, kr + dr) {
+                    continue;
+                }
+                let s = sq(kf + df, kr + dr) as usize;
+                if p.sq[s] != 0 || (kind(piece) == P && (rank_of(s as u8) == 0 || rank_of(s as u8) == 7)) {
+                    continue;
+                }
+                return Some(s);
+            }
+            None
+        };
+        let kd = 2 + rng.below(2) as i8;
+        let Some(s) = near(&p, rng, 2, kd, pc(strong, K)) else { continue };
+        p.sq[s] = pc(strong, K);
+        let mut ok = true;
+        // a third of the samples: exactly one minor piece each (the material FIDE calls dead unless a
+        // helpmate-like blocker stands next to the king — mates in one do exist there)
+        let one_minor_each = rng.chance(1, 3);
+        let weak_set: &[u8] = if one_minor_each { *rng.pick(&[&[N][..], &[B][..]]) } else { WEAK[rng.below(WEAK.len() as u64) as usize] };
+        let strong_set: &[u8] = if one_minor_each { *rng.pick(&[&[N][..], &[B][..]]) } else { STRONG[rng.below(STRONG.len() as u64) as usize] };
+        for &k in weak_set.iter() {
+            let hi = if rng.chance(3, 4) { 1 } else { 3 };
+            match near(&p, rng, 1, hi, pc(weak, k)) {
+                Some(s) => p.sq[s] = pc(weak, k),
+                None => ok = false,
+            }
+        }
+        for &k in strong_set.iter() {
+            let hi = if rng.chance(2, 3) { 3 } else { 7 };
+            match near(&p, rng, 1, hi, pc(strong, k)) {
+                Some(s) => p.sq[s] = pc(strong, k),
+                None => ok = false,
+            }
+        }
+        let _ = file_of(0);
+        if ok && p.validity().is_ok() && p.legal_moves().len() >= 2 {
+            return p;
+        }
+    }
+}
+
 pub fn run_c08(ctx: &Ctx) -> i32 {
     let spec = Spec {
         level: "exploration",
-        rule: "a case is (position, depth) met along random games, synthetic positions and king-hunt studies that satisfies (a) the side to move has a mate in one (depth 1..4, depth 4 only with few men): the answer of find_best_move on a fresh engine must be one of the mating moves; or (b) no mate in one, and the legal moves split into ones that allow the opponent a mate in one and ones that do not (depth 2..3): the answer must not be one that allows it. Sets are computed with the reference rules only; half of the positions are given with hostile move counters (halfmove clock up to 99). Distinct by (position, depth, kind); (a) is non-trivial when some legal move does not mate, (b) always",
+        rule: "a case is (position, depth) met along random games, synthetic positions and king-hunt studies that satisfies (a) the side to move has a mate in one (depth 1..4, depth 4 only with few men): the answer of find_best_move on a fresh engine must be one of the mating moves; or (b) no mate in one, and the legal moves split into ones that allow the opponent a mate in one and ones that do not (depth 2..3): the answer must not be one that allows it. A tenth of the trials come from sparse material around a cornered king (3..6 men: minor pieces only, lone pawns about to promote, under-promotion mates). Sets are computed with the reference rules only; half of the positions are given with hostile move counters (halfmove clock up to 99). Distinct by (position, depth, kind); (a) is non-trivial when some legal move does not mate, (b) always",
         assumptions: vec!["the reference rules implementation is correct (perft self-test at every run)".into()],
-        required: if ctx.replay.is_some() { vec![] } else { vec!["mate_in_one_trials_depth_1", "mate_in_one_trials_depth_2", "mate_in_one_trials_depth_3", "mate_in_one_trials_depth_4", "avoidable_mate_trials_depth_2", "avoidable_mate_trials_depth_3", "positions_examined_with_hostile_move_counters"] },
+        required: if ctx.replay.is_some() { vec![] } else { vec!["mate_in_one_trials_depth_1", "mate_in_one_trials_depth_2", "mate_in_one_trials_depth_3", "mate_in_one_trials_depth_4", "avoidable_mate_trials_depth_2", "avoidable_mate_trials_depth_3", "positions_examined_with_hostile_move_counters", "mate_in_one_trials_minor_pieces_only", "avoidable_mate_trials_minor_pieces_only", "mate_in_one_trials_at_most_5_men", "mate_in_one_trials_one_minor_piece_each"] },
         exhaustive: false,
         extra: vec![],
     };
@@ -679,7 +823,18 @@ pub fn run_c08(ctx: &Ctx) -> i32 {
                         }
                     }
                 }
-                5..=7 => {
+                5 => {
+                    // sparse material: keep sampling until a position gives a trial
+                    for _ in 0..4000 {
+                        let p = g_mating_sparse(&mut rng);
+                        if c08_position(&p, &mut rng, &mut st, None, 10) {
+                            trials += 1;
+                            st.bump("src_sparse_material_trials");
+                            break;
+                        }
+                    }
+                }
+                6..=7 => {
                     let p = g_mating(&mut rng);
                     let (ps, _) = gen::playout(&p, &mut rng, 6);
                     for p in ps.iter() {
